@@ -22,11 +22,11 @@ import numpy as np
 from .. import eqcases, eqterm
 from ..gen import eqfamilies
 
-FAMILIES = ("callables", "einsums")
+FAMILIES = ("callables", "einsums", "history-graphs")
 
 
 def _kind_of_label(name, lbl):
-    return lbl.split(":")[0] if name == "callables" else "einsum"
+    return lbl.split(":")[0] if name == "callables" else ("einsum" if name == "einsums" else lbl)
 
 
 # ------------------------------------------------------------------ fresh interpreters
@@ -77,7 +77,8 @@ def judge_children(ctx, outs, mode: str):
                         why = ("the graph itself differs there" if t["struct"] != row["struct"]
                                else "the graph is the same there")
                         sig = (f"key-unstable:process:traced-callable:{kk}" if name == "callables"
-                               else "key-unstable:process:einsum")
+                               else "key-unstable:process:einsum" if name == "einsums"
+                               else f"key-unstable:history:fresh-interpreter:{kk}")
                         ctx.violation(sig, f"{name} {lbl}: the persistent key in a fresh interpreter (PYTHONHASHSEED={hs}) "
                                            f"is {t['key']}, here {row['key']} ({why})", rep)
                     if t.get("twin_eq") and t.get("twin_key_eq") is False:
@@ -87,7 +88,8 @@ def judge_children(ctx, outs, mode: str):
                     if t["struct"] != row["struct"]:
                         ndis += 1
                         sig = (f"rebuilt-xproc-unequal:traced-callable:{kk}" if name == "callables"
-                               else "rebuilt-xproc-unequal:einsum")
+                               else "rebuilt-xproc-unequal:einsum" if name == "einsums"
+                               else f"rebuilt-xproc-unequal:{kk}")
                         ctx.violation(sig, f"{name} {lbl}: the same program builds a structurally different graph in a "
                                            f"fresh interpreter with PYTHONHASHSEED={hs}", rep)
                     if t.get("twin_eq") is False:
@@ -308,3 +310,72 @@ def constants(ctx, mode: str):
     ctx.note_batch("constants-python-identifies", ncase, ndis, exhaustive=False, graph_pairs_that_compare_equal=nequal,
                    equal_pairs_by_class=classes, pairs=len(constant_pairs()), routes=sorted(_routes()),
                    equal_pairs_not_evaluable=nunevaluated)
+
+
+# ------------------------------------------------------------------ key histories
+
+def key_histories(ctx):
+    """the persistent key of a graph does not depend on what happened to the graph object before: keyed
+    fresh / after hash() / after == / after a pickle round trip (pickled fresh, pickled after hash and key) /
+    after loopy's own LoopyKeyBuilder keyed (and hashed) its kernels / with a second PytatoKeyBuilder — every
+    history on NEWLY built objects (pytools caches a digest on each object it has seen)"""
+    from loopy.tools import LoopyKeyBuilder
+    from pytato.analysis import PytatoKeyBuilder
+
+    from ..gen import eqfamilies
+
+    def tus(g):
+        return [n.translation_unit for n in eqterm.all_nodes(g) if type(n).__name__ == "LoopyCall"]
+
+    def h_fresh(g):
+        return PytatoKeyBuilder()(g)
+
+    def h_hash(g):
+        hash(g)
+        return PytatoKeyBuilder()(g)
+
+    def h_eq(g, other):
+        g == other   # noqa: B015   (the comparison is the history; wrapped data compares by identity)
+        return PytatoKeyBuilder()(g)
+
+    def h_pickle_fresh(g):
+        return PytatoKeyBuilder()(pickle.loads(pickle.dumps(g)))
+
+    def h_pickle_used(g):
+        hash(g)
+        PytatoKeyBuilder()(g)
+        return PytatoKeyBuilder()(pickle.loads(pickle.dumps(g)))
+
+    def h_loopy_kernels(g):
+        for tu in tus(g):
+            LoopyKeyBuilder()(tu)
+            hash(tu)
+        return PytatoKeyBuilder()(g)
+
+    def h_twice(g):
+        kb = PytatoKeyBuilder()
+        kb(g)
+        return kb(g)
+    ncase = ndis = 0
+    for lbl, th in eqfamilies.history_builders().items():
+        want = h_fresh(th())
+        hist = {"after-hash": lambda: h_hash(th()), "after-eq": lambda: h_eq(th(), th()),
+                "after-pickle-round-trip": lambda: h_pickle_fresh(th()),
+                "pickled-after-hash-and-key": lambda: h_pickle_used(th()),
+                "after-loopy-keyed-its-kernels": lambda: h_loopy_kernels(th()),
+                "keyed-twice": lambda: h_twice(th()), "second-fresh-build": lambda: h_fresh(th())}
+        for hn, fn in hist.items():
+            ncase += 1
+            try:
+                got = fn()
+            except Exception as e:   # noqa: BLE001
+                ndis += 1
+                ctx.violation(f"key-raises:history:{hn}", f"{lbl}: {type(e).__name__}: {e}"[:300], {"graph": lbl, "history": hn})
+                continue
+            if got != want:
+                ndis += 1
+                ctx.violation(f"key-unstable:history:{hn}",
+                              f"graph family {lbl!r}: keyed {hn} the persistent key is {got}, keyed on freshly built "
+                              f"objects it is {want}", {"graph": lbl, "history": hn, "key_fresh": want, "key": got})
+    ctx.note_batch("key-histories", ncase, ndis, exhaustive=True, graphs=sorted(eqfamilies.history_builders()),
+                   note="fresh-interpreter history: family `history-graphs` of the families-in-fresh-interpreters batch")
